@@ -65,6 +65,8 @@ def _composites(tier):
         ("struct", [["sig", ("const", "ab")], ["len", ("rebuildlen", I8, "body")], ["body", ("bytesctx", "len", None)]]),
         ("struct", [["w", I8], ["v", ("bytesintctx", "w", True)], ["t", I8]]), ("struct", [["w", I8], ["v", ("bytesintctx", "w", False)]]),
         ("adapt", I8, "inc"), ("adapt", I8, "xor"), ("adapt", ("fmt", "Int16sb"), "cls"), ("struct", [["n", ("adapt", I8, "inc")], ["d", ("bytesctx", "n", 3)]]),
+        ("optional", ("struct", [["a", I8], ["b", I8]])), ("seq", [I8, ("optional", ("struct", [["a", ("fmt", "Int16ub")], ["b", I8]])), I8]),
+        ("select", [("struct", [["a", ("fmt", "Int32ub")], ["b", I8]]), ("struct", [["a", I8]])]), ("prefixed", I8, ("optional", ("struct", [["a", I8], ["b", I8]])), False),
         ("seq", [I8, V, ("flag",)]),
         ("focusedseq", "b", [["a", ("const", "00")], ["b", I16l], ["c", ("const", "ff")]]),
         ("array", 3, I16b), ("array", 0, I8), ("array", 2, V),
